@@ -32,7 +32,7 @@ def outcome_of(fn, *a, **kw):
     """call fn, return ('ok', value) or ('exc', exception)"""
     try:
         return ("ok", fn(*a, **kw))
-    except Exception as e:  # noqa - the monitor classifies the exception
+    except (Exception, SystemExit) as e:  # noqa - the monitor classifies the exception
         return ("exc", e)
 
 
